@@ -10,6 +10,7 @@ pub fn dispatch(name: &str, args: &[String]) -> u8 {
         "c13-find" => c13_find(args),
         "c07-lex" => c07_lex(args),
         "c10-layout" => c10_layout(args),
+        "c10-first-token" => c10_first_token(args),
         "c13-replace" => c13_replace(args),
         _ => {
             eprintln!("unknown case {name}");
@@ -188,4 +189,21 @@ fn c10_layout(args: &[String]) -> u8 {
     println!("A {a:?}: tokens {ta:?} diagnostics {da:?}");
     println!("B {b:?}: tokens {tb:?} diagnostics {db:?}");
     u8::from(ta != tb || da != db)
+}
+
+/// C10 / 10.b: the first token of the text (hex) must be the expected one (Debug rendering, e.g.
+/// `IfToSay`, `SmallPass`, `Identifier("if")`): a multi-word keyword is recognised whatever follows
+/// its last word, as long as that is not a word byte.
+fn c10_first_token(args: &[String]) -> u8 {
+    use naijascript::syntax::scanner::Lexer;
+    let bytes = unhex(&args[0]);
+    let Ok(src) = std::str::from_utf8(&bytes) else {
+        println!("not UTF-8: skipped");
+        return 0;
+    };
+    let arena = Arena::new(4 * 1024 * 1024).unwrap();
+    let mut lexer = Lexer::new(src, &arena);
+    let first = lexer.next().map(|t| format!("{:?}", t.token)).unwrap_or_default();
+    println!("text {src:?}: first token {first}, expected {}", args[1]);
+    u8::from(first != args[1])
 }
